@@ -15,7 +15,7 @@ import itertools
 
 from sa import astx as X
 from sa import normal as N
-from sa.fold import Closure, Evaluator, Unknown, safe
+from sa.fold import Obj, Closure, Evaluator, Unknown, safe
 from sa.index import AnalysisError, dotted_of
 from sa.report import Ctx, Rule
 
@@ -65,8 +65,14 @@ def _fold_vocab(ctx: Ctx) -> list[str]:
 
     resolving: set[str] = set()
 
+    import string as _string
+
+    STDLIB = {"string": Obj("module:string", {k: getattr(_string, k) for k in ("ascii_uppercase", "ascii_lowercase", "ascii_letters", "digits")})}
+
     def name_hook(name, env):
         "module-level constants and helper functions of constants.py / utils.py (a constant moved out of a literal, an extracted sort key)"
+        if name in STDLIB and any(name in mod.imports for mod in (m, u)):
+            return STDLIB[name]
         for mod in (m, u):
             if name in mod.assigns and name not in resolving:
                 resolving.add(name)
@@ -174,7 +180,28 @@ def rule_W3(ctx: Ctx) -> None:
     rev = N.kwarg(c, "reverse")
     src = c.args[0]
     sdef = X.assignments_to(f.node, src.id) if isinstance(src, ast.Name) else [src]
-    ok_src = len(sdef) == 1 and X.same_expr(sdef[0], "list(np.ndindex(tuple([n for _ in range(ndim)])))", "list(np.ndindex((n,) * ndim))", "list(np.ndindex(*([n] * ndim)))")
+    # the sorted collection is the full index set: evaluated abstractly for (n, ndim) = (3, 2) and (2, 3)
+    ok_src = len(sdef) == 1
+    if ok_src:
+        def nd_hook(ev_, node, env):
+            d_ = dotted_of(node.func)
+            if d_ in ("np.ndindex", "numpy.ndindex"):
+                args = []
+                for a_ in node.args:
+                    if isinstance(a_, ast.Starred):
+                        args.extend(ev_.ev(a_.value, env))
+                    else:
+                        args.append(ev_.ev(a_, env))
+                shape = args[0] if len(args) == 1 and isinstance(args[0], (tuple, list)) else tuple(args)
+                return list(itertools.product(*[range(int(k)) for k in shape]))
+            return NotImplemented
+        src_full = X.expand_locals(sdef[0], f.node, keep=f.params())
+        for n_, d_ in ((3, 2), (2, 3)):
+            try:
+                got_src = Evaluator({"__call__": nd_hook}).ev(src_full, {f.params()[0]: n_, f.params()[1]: d_})
+                ok_src = ok_src and sorted(got_src) == sorted(itertools.product(range(n_), repeat=d_)) and len(got_src) == n_ ** d_
+            except Unknown:
+                ok_src = False
     ok_key = False
     free = None
     # the key as (argument name, returned expressions, owning function or None): a lambda, or a module-level function given by name
@@ -295,16 +322,77 @@ def rule_W6(ctx: Ctx) -> None:
     ctx.judge(where, ok, {k: X.U(x) for k, x in got.items()}, "row-major mode lists coordinates by np.ndindex(n, n) (row-major); the uniform mode by corner_first_ndindex(n, 2)",
               "a legacy mode orders its coordinate tokens differently: ids of existing models shift")
     ta = ctx.index.func(f"{MT}.MazeTokenizer._token_arr")
-    first = X.assignments_to(ta.node, "output")
-    ok = bool(first) and X.same_expr(first[0], "list(SPECIAL_TOKENS.values())")
-    ext = [c for c in X.method_calls(ta.node, "extend") if X.U(c.func.value) == "output"]
-    # normalised shape: `for v in _NDINDEX_FUNC_MAP[mode](self.max_grid_size): output.append(self._node_strings_map[v][0])`
-    ut = [n for n in ast.walk(ta.node) if isinstance(n, ast.For) and X.same_expr_x(n.iter, ta.node, "_NDINDEX_FUNC_MAP[self.tokenization_mode](self.max_grid_size)")]
-    ok_ut = len(ut) == 1 and isinstance(ut[0].target, ast.Name) and len(ut[0].body) == 1 and isinstance(ut[0].body[0], ast.Expr) \
-        and X.same_expr(ut[0].body[0].value, f"output.append(self._node_strings_map[{X.U(ut[0].target)}][0])")
-    ctt = [c for c in ext if "map(str, range(self.max_grid_size))" in X.U(c)]
-    ok_ctt = len(ctt) == 1 and X.same_expr(ctt[0].args[0], "['(', ',', ')', *map(str, range(self.max_grid_size))]")
-    ctx.judge(ta, ok and ok_ut and ok_ctt, {"initial": X.U(first[0]) if first else None, "extends": [X.U(c)[:90] for c in ext]},
+    # abstract evaluation for each legacy mode with max_grid_size 3: special tokens are 11 symbols, a coordinate renders as the symbol "(i,j)"
+    from sa.fold import EvalRaised
+
+    u = ctx.index.module(UT)
+    modes = {k: f"mode:{k}" for k in ("AOTP_UT_rasterized", "AOTP_UT_uniform", "AOTP_CTT_indexed")}
+    special = [f"<S{k}>" for k in range(11)]
+    n_ = 3
+
+    class _Strings(dict):
+        def __missing__(self, key):
+            return [f"({key[0]},{key[1]})"]
+
+    def ta_call(ev_, node, env):
+        d_ = dotted_of(node.func) or ""
+        if d_ in ("np.ndindex", "numpy.ndindex"):
+            args = [ev_.ev(a_, env) for a_ in node.args]
+            shape = args[0] if len(args) == 1 and isinstance(args[0], (tuple, list)) else tuple(args)
+            return list(itertools.product(*[range(int(k)) for k in shape]))
+        if d_ == "SPECIAL_TOKENS.values":
+            return list(special)
+        if d_ == "corner_first_ndindex":
+            return ev_.call(Closure(u.functions["corner_first_ndindex"].node, {}), [ev_.ev(a_, env) for a_ in node.args], {})
+        return NotImplemented
+
+    def ta_name(name, env):
+        if name == "TokenizationMode":
+            return Obj("enum:TokenizationMode", {**modes, "__members__": dict(modes)})
+        for mod in (m, u):
+            if name in mod.assigns:
+                return Evaluator({"__call__": ta_call, "__name__": ta_name}).ev(mod.assigns[name], {})
+            if name in mod.functions:
+                return Closure(mod.functions[name].node, {})
+        raise Unknown(f"free name `{name}`")
+    # the vocabulary is a function of (mode, max_grid_size) alone: nothing on the way writes module-level state (a cache keyed by less
+    # than both makes the vocabulary of one tokenizer depend on which tokenizers were used before)
+    from sa.callgraph import CallGraph
+
+    cg = CallGraph(ctx.index)
+    hidden = []
+    for q_ in cg.closure([ta.qualname]):
+        fq = ctx.index.functions[q_]
+        if fq.module.name not in (MT, UT):
+            continue
+        for w_ in X.module_state_writes(fq.node, fq.module.assigns):
+            hidden.append(f"{q_.rsplit('.', 1)[-1]}: {X.U(w_)[:80]}")
+    ctx.judge(ta, not hidden, {"module_state_written_on_the_way": hidden[:4]},
+              "building a legacy vocabulary writes no module-level state (it depends on the tokenizer's mode and max_grid_size only)",
+              "a shared cache makes the vocabulary depend on the tokenizers used earlier in the process: token ids change with history")
+    rm = [f"({i},{j})" for i in range(n_) for j in range(n_)]
+    try:
+        cf = Evaluator({"__call__": ta_call, "__name__": ta_name}).call(Closure(u.functions["corner_first_ndindex"].node, {}), [n_, 2], {})
+        cf = [f"({i},{j})" for i, j in cf]
+    except Unknown:
+        cf = None
+    want = {"AOTP_UT_rasterized": special + rm, "AOTP_UT_uniform": (special + cf) if cf is not None else None, "AOTP_CTT_indexed": special + ["(", ",", ")", "0", "1", "2"]}
+    bad, unk = [], []
+    for mk, mv in modes.items():
+        me = Obj("MazeTokenizer", {"tokenization_mode": mv, "max_grid_size": n_, "_node_strings_map": _Strings()})
+        try:
+            got = Evaluator({"__call__": ta_call, "__name__": ta_name}).run_body(X.body_wo_doc(ta.node), {ta.params()[0]: me})
+            got = list(got) if isinstance(got, (list, tuple)) else got
+        except EvalRaised as e:
+            got = f"raises {e.exc_name}"
+        except Unknown as e:
+            unk.append(f"{mk}: {e}"[:140])
+            continue
+        if want[mk] is None:
+            unk.append(f"{mk}: corner_first_ndindex could not be evaluated")
+        elif got != want[mk]:
+            bad.append({"mode": mk, "found": repr(got)[:200], "expected": repr(want[mk])[:200]})
+    ctx.judge(ta, False if bad else None if unk and not hidden else True, {"modes": sorted(modes), "max_grid_size": n_, "deviations": bad[:2], "undecided": unk[:2]},
               "legacy vocabulary = special tokens first, then one token per coordinate in the mode's order (UT) or '(' ',' ')' and 0..n-1 (CTT)",
               "the legacy vocabulary has duplicates / another order")
     cs = ctx.index.func("maze_dataset.token_utils._coord_to_strings_UT")
@@ -322,7 +410,7 @@ RULES = [
     Rule("C14.W3", rule_W3, floor=1, doc="corner-first prefix lemma"),
     Rule("C14.W4", rule_W4, floor=8, doc="codec inverse by construction"),
     Rule("C14.W5", rule_W5, floor=6, doc="error translation, both sides"),
-    Rule("C14.W6", rule_W6, floor=4, doc="legacy vocabularies"),
+    Rule("C14.W6", rule_W6, floor=5, doc="legacy vocabularies"),
 ]
 
 from sa import exits as _exits  # noqa: E402
